@@ -122,7 +122,8 @@ pub const FAMILIES: [&str; 8] = [
     "batch-lookups",
     "batch-zk",
     "batch-zk-hiding-mmcs",
-    // not generated (the repository's tests never build it): reachable through hand-written replays
+    // uni-STARK over HidingFriPcs: rejected by its own circuit until the transcript repair
+    // (FRI random opened values were not observed); generated since then
     "uni-zk",
 ];
 
@@ -1864,7 +1865,7 @@ pub fn oracle(c: &Case) -> Report {
 
 fn shape_strategy() -> impl Strategy<Value = Shape> {
     (
-        (0u8..7, 0u8..2, 0u8..5, 0u8..5, 0u8..3),
+        (0u8..8, 0u8..2, 0u8..5, 0u8..5, 0u8..3),
         prop::collection::vec(0u8..4, 1..=4),
         (0u8..3, 0u8..3, 0u8..3, 0u8..3, 0u8..3, 0u8..3, prop_oneof![3 => Just(0u8), 1 => 1u8..3]),
     )
